@@ -64,6 +64,7 @@ var targets = []string{
 	"defaultPathProcessor.ExtractParameters",
 	"Route.matchesAccept",
 	"Route.matchesContentType",
+	"templateToRegularExpression",
 }
 
 // fuel: bound of the `for { … }` loops of a function, as a Go expression over its parameters
@@ -512,6 +513,30 @@ func (t *tr) call(c *ast.CallExpr) (string, bool) {
 			return "(Str.trim ' ' " + a + ")", m
 		}
 		fail("strings.TrimFunc with %s", src(c.Args[1]))
+	}
+	if name == "fmt.Sprintf" {
+		// a format made of literal text and %s verbs only is a concatenation
+		f, ok := litString(c.Args[0])
+		if !ok || strings.Count(f, "%") != strings.Count(f, "%s") || strings.Count(f, "%s") != len(c.Args)-1 {
+			fail("fmt.Sprintf form %s", src(c))
+		}
+		parts := strings.Split(f, "%s")
+		var out []string
+		mon := false
+		for i, lit := range parts {
+			if lit != "" {
+				out = append(out, strLit(lit))
+			}
+			if i < len(parts)-1 {
+				a, m := t.expr(c.Args[i+1])
+				out = append(out, a)
+				mon = mon || m
+			}
+		}
+		if len(out) == 0 {
+			return strLit(""), false
+		}
+		return "(" + strings.Join(out, " ++ ") + ")", mon
 	}
 	a, mon := t.args(c.Args)
 	switch name {
